@@ -18,12 +18,46 @@ func init() { register("C09", "other", checkC09) }
 func checkC09(c *Ctx) {
 	prog := c.Prog(load.AMD64)
 	c09DefUse(c, prog)
+	c09DigestScalar(c, prog)
 	c09Mitigate(c, prog)
 	c09Sampler(c, prog)
 	c09Drbg(c, prog)
 	c09ErrCheck(c, prog)
 	c.R.Explanation = "Nonce generation is decided structurally: (1) in secec.sign the caller's reader flows only into mitigateDebianAndSony and the sampler reads only from that function's result (def-use over SSA); GenerateKey samples from crypto/rand.Reader; (2) mitigateDebianAndSony, abstractly interpreted with an unknown reader: the RFC 6979 sentinel selects the deterministic generator built from (private scalar, e); otherwise exactly 32 bytes are obtained with io.ReadFull (nil is replaced by crypto/rand.Reader - no nil read is reachable), a read error returns (nil, err), and the returned XOF is TupleHashXOF128 keyed by a constant containing the context string having absorbed, in order, Bytes(private scalar), the 32 entropy bytes, Bytes(e) - each exactly once; (3) sampleRandomScalar (all 8 attempts unrolled): every accepting return hands out fn(E) for a 32-byte block E obtained by io.ReadFull whose read error was nil and which was tested canonical (not reduced) and non-zero on that path; every other return is an error with a nil scalar; after the last attempt an error is returned; (4) the RFC 6979 generator: the initial state equals steps b-g of RFC 6979 3.2 as HMAC-SHA-256 terms over int2octets(x) || bits2octets(h1); a first read returns V' = HMAC_K(V) and a read after a rejected candidate performs K = HMAC_K(V || 00), V = HMAC_K(V) first (step h.3), for 32-byte requests only; (6) no error result is discarded in secec, secec/bitcoin, secec/h2c except the enumerated never-failing hash writes and four justified sites."
 	c.R.Assumptions = []string{"TupleHashXOF128 / HMAC-SHA-256 outputs differ when their inputs differ and are unbiased (cryptographic assumption; not decided)", "io.ReadFull returns an error unless the buffer was filled (standard library contract)", "C02 (Scalar.SetBytes flag, Bytes)"}
+}
+
+// c09DigestScalar: the digest scalar that keys the nonce (and is signed) is bits2octets of RFC 6979 / SEC 1 4.1.3 step 5:
+// the leftmost 32 bytes reduced mod n, for every digest of at least 32 bytes (in particular digests >= n are reduced, not
+// refused); shorter digests are refused.
+func c09DigestScalar(c *Ctx, prog *load.Program) {
+	name := models.SececPkg + ".hashToScalar"
+	r := RunFn(prog, protoSet(nil), name, &RunOpts{Args: named("h")})
+	if r.Fn == nil {
+		c.R.Unknown("C09-1", "hashToScalar", "", "secec.hashToScalar not found")
+		return
+	}
+	pos := PosOf(prog, r.Fn)
+	if p := runComplete(r); p != "" || len(r.Ex.Panics) > 0 {
+		c.R.Unknown("C09-1", "hashToScalar", pos, fmt.Sprintf("%s (panics: %d)", p, len(r.Ex.Panics)))
+		return
+	}
+	acc, prob := successFormula(r)
+	if prob != "" {
+		c.R.Unknown("C09-1", "hashToScalar", pos, prob)
+		return
+	}
+	ok, d := Equivalent(acc, fNot(FTerm(absint.Lt(symLen("h"), sym.ConstI(32)))))
+	detail := d
+	want := models.OfBytes(sym.Fn, absint.SubBytes(symBytes("h"), sym.ConstI(0), sym.ConstI(32)))
+	for _, e := range r.Ex.Returns {
+		if p, isP := exitResult(e, 0).(*absint.Ptr); isP {
+			if t := loadPtrTerm(r.Ex, e.St, p); t == nil || !sym.Equal(e.St.Simplify(t), want) {
+				ok, detail = false, "the digest scalar is "+absint.ValString(t)+", expected the leftmost 32 bytes reduced mod n"
+			}
+		}
+	}
+	c.R.Decide(ok, "C09-1", "hashToScalar", pos, "e = leftmost 32 digest bytes mod n for every digest of >= 32 bytes; shorter digests are refused", "the digest scalar differs from bits2octets: "+detail)
 }
 
 // c09DefUse: who feeds the sampler.
@@ -285,6 +319,11 @@ func c09Sampler(c *Ctx, prog *load.Program) {
 	good := true
 	detail := ""
 	nAcc, nRej, maxReads := 0, 0, 0
+	type giveUp struct {
+		reads int
+		pos   string
+	}
+	var giveUps []giveUp
 	for _, ret := range r.Ex.Returns {
 		res0, res1 := exitResult(ret, 0), exitResult(ret, 1)
 		reads := 0
@@ -300,6 +339,17 @@ func c09Sampler(c *Ctx, prog *load.Program) {
 			nRej++
 			if !isNilVal(res0) {
 				good, detail = false, "a scalar is returned together with an error at "+PosStr(prog, ret.Pos)
+			}
+			// an error is returned only when a read failed, or when every allowed attempt was rejected: an
+			// out-of-range or zero candidate is discarded and the next one is tried, it does not abort
+			readFailed := false
+			for _, l := range ret.Guard {
+				if l.T.Op == "isnil" && !l.Val && strings.HasPrefix(l.T.Args[0].String(), "readerr") {
+					readFailed = true
+				}
+			}
+			if !readFailed {
+				giveUps = append(giveUps, giveUp{reads, PosStr(prog, ret.Pos)})
 			}
 			continue
 		}
@@ -352,6 +402,11 @@ func c09Sampler(c *Ctx, prog *load.Program) {
 	}
 	if good && (nAcc == 0 || nRej == 0) {
 		good, detail = false, "no accepting or no rejecting return"
+	}
+	for _, g := range giveUps {
+		if g.reads < maxReads {
+			good, detail = false, fmt.Sprintf("the sampler gives up with an error after %d candidate(s) although no read failed (at %s); a rejected candidate must be replaced by the next one, up to %d attempts", g.reads, g.pos, maxReads)
+		}
 	}
 	c.R.Decide(good, "C09-3", "sampler/reject-not-reduce", pos, fmt.Sprintf("%d accepting returns, each fn(E) for a 32-byte block E with read error nil, E < n and fn(E) != 0 tested on the path; %d error returns with a nil scalar", nAcc, nRej), detail)
 	c.R.Decide(maxReads >= 1 && maxReads <= 8, "C09-3", "sampler/bounded", pos, fmt.Sprintf("at most %d candidates are read before giving up with an error", maxReads), fmt.Sprintf("unexpected number of candidate reads: %d", maxReads))
